@@ -36,8 +36,10 @@ RULE = ('corpus; exhaustive 2x2 matrices with votes 0..2, 1..3 seats, both divis
         'counts, D\'Hondt and Sainte-Lague, seats as a total, a per-district dictionary (derived from another apportionment, or a random '
         'composition that is sometimes infeasible) or through a custom apportioner (largest remainder, the other divisor, a uniform int); '
         'a boundary stream of matrices with repeated columns / rows (ties inside the initial column-wise solution); a same-labels stream '
-        '(districts and parties both labelled 0..k-1: equal labels on both sides, one of them falsy). The all-zero matrix '
-        'is left out. Instances whose party or district apportionment is tied are outside the quantifier and only counted. '
+        '(districts and parties both labelled 0..k-1: equal labels on both sides, one of them falsy); elections without a single '
+        'vote (zeros stored or rows left empty; total / dictionary / apportioner) and an empty-lines stream (whole districts and / or '
+        'parties without votes, district seats that often fall on a district without votes: the boundary of the refusal clause). '
+        'Instances whose party or district apportionment is tied are outside the quantifier and only counted. '
         'non-trivial = at least one transfer or multiplier update happened (trace longer than one state) or the call was refused; '
         'distinct by case hash')
 PARTIAL = ['termination of tie-and-transfer for all inputs is not proved (C07_termination_full_statement): observed under a wall-clock '
@@ -54,7 +56,7 @@ TRUSTED = ['observation of the district iteration order: run_impl shadows the st
            '(library untouched) and rebuilds frozenset(cur) | frozenset(tgt) from the very arguments',
            'the verif hook in BiproportionalEvaluator.evaluate (records copies of result / district_coefs / party_coefs; add-only)',
            'harness-side exact solver for multipliers (untrusted: its output is only a certificate for cert_ok)']
-ASSUMPTIONS = ['a wall-clock limit stands in for termination', 'votes are non-negative integers, at least one of them positive']
+ASSUMPTIONS = ['votes are non-negative integers']
 EXTRA_PROOF_FILES = []
 GEN_TIES = {'Divisor': 'Props/GenTie_Divisor.v'}     # d_hondt / sainte_lague of the checker = component/divisor.py (translator tie)
 DIV = {1: 'd_hondt', 2: 'sainte_lague'}
@@ -211,14 +213,14 @@ def outcome_sx(state):
 
 
 # ---- the whole-loop model (Model/BipropLoop.v) against the implementation
-LOOP_CODE = {1: 'VSE', 2: 'ZERODIV', 3: 'KEY', 4: 'VALUE'}
+LOOP_CODE = {1: 'VSE', 2: 'ZERODIV', 3: 'KEY', 4: 'VALUE', 5: 'VSE'}      # 5 = no votes cast (fixes/C07-all-zero.diff)
 
 
 def loop_line(c, tgt, dorder):
     """tgt: 'same' or [[d, k] ...] in the key order of tgt_district_seats"""
     tm = '(0)' if tgt == 'same' else '(1 %s)' % sx(tgt)
     n = c['n'] if c['seats'][0] != 'dict' else sum(k for _, k in c['seats'][1])
-    return '%d (%d %s %s %d %s %s %d)' % (U_LOOP, c['div'], sx(QCONST[c['div']]), votes_sx(c), n, tm, sx(dorder), LOOP_FUEL)
+    return '%d (%d %s %s %d %s %s %d 1)' % (U_LOOP, c['div'], sx(QCONST[c['div']]), votes_sx(c), n, tm, sx(dorder), LOOP_FUEL)
 
 
 def canon_state(res, rho, gam):
@@ -257,6 +259,10 @@ def compare_loop(r, trace, mo):
     else:
         if LOOP_CODE.get(code) is None or common.E[LOOP_CODE[code]] != r[1]:
             return 'implementation raises %s, the whole-loop model ends with code %d' % (r[2], code)
+        # the two VotingSystemError sites: the refusal of an election without votes that opens evaluate (model code 5) and
+        # the invalid adjustment coefficient inside the loop (code 1)
+        if code in (1, 5) and ('adjustment coefficient' in r[2]) != (code == 1):
+            return 'implementation raises %s, the whole-loop model refuses at the other site (code %d)' % (r[2], code)
     # the outcome agrees; the multipliers and the states on the way are ghost output: a difference there does not touch the
     # property (the theorem certifies the model's matrix, which IS the returned one) - it is counted, not reported
     if trace is not None:
@@ -499,8 +505,8 @@ def judge_loop(ctx, stream, runs, holds):
 
 
 def known_class(c, io, mo):
-    if c.get('unit', 'biprop') == 'biprop' and not any(v for _, row in c['votes'] for _, v in row) and io.startswith('(0'):
-        return 'C07-all-zero'
+    # C07-all-zero (an election without votes apportioned instead of refused) is repaired by fixes/C07-all-zero.diff: no known
+    # class is left; a matrix returned without votes fails the checker's zero-cell clause and is a violation like any other
     return None
 
 
@@ -676,16 +682,50 @@ def gen_boundary(rng, count):
 def gen_exhaustive():
     import itertools
     for a, b, cc, dd in itertools.product(range(3), repeat=4):
-        if not (a or b or cc or dd):
-            continue
         for n in (1, 2, 3):
             for div in (1, 2):
                 yield dict(unit='biprop', div=div, votes=[[1, [[1, a], [2, b]]], [2, [[1, cc], [2, dd]]]], n=n, seats=['total'])
 
 
 def gen_all_zero():
-    for nd, np_, n, div in [(2, 2, 4, 1), (2, 3, 3, 2), (3, 2, 6, 1)]:
-        yield dict(unit='biprop', div=div, votes=[[d, [[p, 0] for p in range(1, np_ + 1)]] for d in range(1, nd + 1)], n=n, seats=['total'])
+    """elections without a single vote (refused since fixes/C07-all-zero.diff; judged by the verified cut): zeros stored, rows
+    left empty, seats as a total / a dictionary / through an apportioner"""
+    for nd, np_, n, div in [(2, 2, 4, 1), (2, 3, 3, 2), (3, 2, 6, 1), (2, 1, 1, 1), (3, 3, 3, 2), (2, 2, 2, 2), (4, 2, 8, 1)]:
+        votes = [[d, [[p, 0] for p in range(1, np_ + 1)]] for d in range(1, nd + 1)]
+        yield dict(unit='biprop', div=div, votes=votes, n=n, seats=['total'])
+        yield dict(unit='biprop', div=div, votes=votes, n=n, seats=['dict', [[d, n if d == 1 else 0] for d in range(1, nd + 1)]])
+        if n % nd == 0:
+            yield dict(unit='biprop', div=div, votes=votes, n=n, seats=['apportioner', 'uniform', n // nd])
+            yield dict(unit='biprop', div=div, votes=votes, n=n, seats=['dict', [[d, n // nd] for d in range(1, nd + 1)]])
+        yield dict(unit='biprop', div=div, votes=[[d, row if d == 1 else []] for d, row in votes], n=n, seats=['total'])
+
+
+def gen_empty_lines(rng, count):
+    """boundary of the refusal clause: matrices with whole districts and / or whole parties without votes; the district seats
+    (a dictionary or an apportioner) often give seats to a district without votes - then no seat matrix exists and the
+    evaluator has to refuse (through its adjustment coefficient); also the all-zero matrix itself"""
+    made = 0
+    while made < count:
+        nd, np_ = rng.randint(2, 5), rng.randint(1, 5)
+        zd = set(rng.sample(range(1, nd + 1), rng.randint(0, nd)))
+        zp = set(rng.sample(range(1, np_ + 1), rng.randint(0, np_ - 1))) if rng.random() < 0.5 else set()
+        big = rng.random() < 0.3
+        votes = [[d, [[p, 0 if d in zd or p in zp or rng.random() < 0.15 else rng.randint(1, 10 ** 6 if big else 9)]
+                      for p in range(1, np_ + 1)]] for d in range(1, nd + 1)]
+        if rng.random() < 0.3:
+            votes = [[d, [[p, v] for p, v in row if v]] for d, row in votes]
+        div = rng.choice([1, 2])
+        n = rng.randint(1, 3 * nd)
+        m = rng.random()
+        if m < 0.25:
+            seats = ['total']
+        elif m < 0.8:
+            seats = ['dict', [[d, k] for d, k in zip(range(1, nd + 1), composition(rng, n, nd))]]
+        else:
+            k = rng.randint(1, 3)
+            seats, n = ['apportioner', 'uniform', k], k * nd
+        made += 1
+        yield mk_case(rng, votes, div, n, seats)
 
 
 def corpus():
@@ -715,6 +755,7 @@ def explore(ctx, widen=1):
     ctx.exhaustive = False
     chunked(ctx, 'random', gen_random(ctx.rng, ctx.n(6000, 120000) * widen), limit)
     chunked(ctx, 'boundary', gen_boundary(ctx.rng, ctx.n(2500, 40000) * widen), limit)
+    chunked(ctx, 'empty-lines', gen_empty_lines(ctx.rng, ctx.n(1200, 20000) * widen), limit)
     chunked(ctx, 'same-labels', (dict(c, labels='ints') for c in gen_random(ctx.rng, ctx.n(1500, 30000) * widen, tiny_share=0.2)), limit)
     kw = dict(limit=10)
     ctx.differential('augment-step', gen_aug(ctx.rng, ctx.n(800, 8000)), aug_model_line, aug_impl, canon=aug_canon, **kw)
